@@ -159,6 +159,8 @@ pub fn main(args: &[String]) -> i32 {
     let mut cur_val: HashMap<usize, Vec<u8>> = HashMap::new();
     let sizes = [20usize, 300, 3000, 4000, 4100, 7000, 8300];
     let edge_pct: u32 = o.num("edges", 25u32);
+    let wide: usize = o.num("wide", 0);
+    let wide_every: usize = o.num("wideevery", 12usize).max(2);
     // buffer-filling burst: more than WRITE_BUFFER_SIZE entries into one shard
     let burst: usize = o.num("burst", 0);
     if burst > 0 {
@@ -181,6 +183,35 @@ pub fn main(args: &[String]) -> i32 {
     for session in 0..sessions {
     for step in 0..steps {
         crate::util::watchdog::beat(&format!("crash workload step {step}"));
+        if wide > 0 && step % wide_every == wide_every / 2 {
+            // one batch with many records (allocation journal longer than one 512-byte sector),
+            // then an acknowledged flush
+            for j in 0..wide.min(keys.len()) {
+                let ki = (j + step) % keys.len();
+                let (key, kid) = (keys[ki].clone(), ki + 1);
+                let call_idx = calls.len() as u64;
+                let val = vec![b'A' + ((step + j) % 26) as u8; 24 + (j % 7) * 40];
+                obs::api("api_call", &key, call_idx, 0, 0);
+                let res = store.insert_with_timestamp(&key, &val, None);
+                if matches!(res, Err(feoxdb::FeoxError::OlderTimestamp)) { obs::api("autorej", &key, kid as u64, 0, 0); }
+                calls.push(match res {
+                    Ok(_) => {
+                        let r = store.verif_record(&key).expect("record after insert");
+                        cur_val.insert(kid, val.clone());
+                        CallInfo { kid, key: key.clone(), gen: Some((r.timestamp, r.ttl_expiry, val)), deleted: false }
+                    }
+                    Err(_) => CallInfo { kid, key: key.clone(), gen: None, deleted: false },
+                });
+                obs::api("api_ret", &key, call_idx, 0, 0);
+            }
+            if !noflush {
+                let id = flushes.len() as u64;
+                obs::api("flush_begin", &[], id, 0, 0);
+                let res = store.flush();
+                flushes.push(FlushInfo { ok: res.is_ok(), snap: snapshot(&store, &keys) });
+                obs::api("flush_end", &[], id, res.is_ok() as u64, 0);
+            }
+        }
         let ki = rng.random_range(0..keys.len());
         let key = keys[ki].clone();
         let kid = ki + 1;
@@ -515,6 +546,7 @@ struct Cut {
     at_event: usize, // index in `events` after which the rec events are spliced
     now: u64,
     units: Vec<(usize, usize)>,
+    torn: Vec<(usize, usize)>,
     img: String,
 }
 
@@ -634,7 +666,7 @@ fn emit_trace(
             "restarted" => {
                 // what the restarted store exposes: judged like any real recovery, then adopted as
                 // the current state of every key
-                let c = Cut { at_event: 0, now: e.b, units: Vec::new(), img: String::new() };
+                let c = Cut { at_event: 0, now: e.b, units: Vec::new(), torn: Vec::new(), img: String::new() };
                 let ev = rec_event(&c, &restart_reports[e.a as usize], keys, &gens, &rk);
                 let kv = ev["res"]["kv"].clone();
                 events.push(ev);
@@ -667,8 +699,16 @@ fn emit_trace(
                 let img = dev.image(&s);
                 let p = format!("{dir}/img_{nimg}.bin");
                 std::fs::write(&p, &img).expect("write image");
-                cuts.push(Cut { at_event: events.len() - 1, now, units: s, img: p });
+                let tearable = dev.tearable(&s);
+                cuts.push(Cut { at_event: events.len() - 1, now, units: s.clone(), torn: Vec::new(), img: p });
                 nimg += 1;
+                for t in tearable {
+                    let img = dev.image_torn(&s, &[t]);
+                    let p = format!("{dir}/img_{nimg}.bin");
+                    std::fs::write(&p, &img).expect("write image");
+                    cuts.push(Cut { at_event: events.len() - 1, now, units: s.clone(), torn: vec![t], img: p });
+                    nimg += 1;
+                }
             }
         }
     }
@@ -729,7 +769,7 @@ fn emit_trace(
                     if cuts2.len() >= 400 { break; }
                     let p = format!("{dir}/n{ci}_{}.bin", cuts2.len());
                     std::fs::write(&p, dev2.image(&s)).expect("write nested image");
-                    cuts2.push(Cut { at_event: ev2.len() - 1, now: c.now, units: s, img: p });
+                    cuts2.push(Cut { at_event: ev2.len() - 1, now: c.now, units: s, torn: Vec::new(), img: p });
                 }
             }
             let res2 = recover_images(&cuts2, keys, ttl, dir, o.num("jobs", 6), false);
@@ -881,6 +921,7 @@ fn rec_event(c: &Cut, r: &Value, keys: &[Vec<u8>], gens: &GenTable, rk: &dyn Fn(
         }
     }).collect();
     json!({"e": "rec", "units": c.units.iter().map(|(a, b)| vec![*a, *b]).collect::<Vec<_>>(),
+        "torn": c.torn.iter().map(|(a, b)| vec![*a, *b]).collect::<Vec<_>>(),
         "now": rk(c.now),
         "res": {"ok": r["ok"], "err": r["err"], "kv": kv, "len": r["len"], "extra": r["extra"],
                 "at": keys.iter().enumerate().map(|(i, _)| r["recs"].get(i).and_then(|x| x["at"].as_u64()).unwrap_or(0)).collect::<Vec<_>>(),
@@ -927,7 +968,7 @@ pub fn chunkrec_main(args: &[String]) -> i32 {
     let rk = move |t: u64| -> usize { if t == 0 { 0 } else { *rank.get(&t).unwrap_or(&0) } };
     let base_path = format!("{dir}/base.bin");
     std::fs::write(&base_path, &img).expect("write base");
-    let cut0 = vec![Cut { at_event: 0, now, units: vec![], img: base_path.clone() }];
+    let cut0 = vec![Cut { at_event: 0, now, units: vec![], torn: Vec::new(), img: base_path.clone() }];
     let r0 = recover_images(&cut0, &keys, true, &dir, 1, true);
     let wl = match r0[0].get("wlog").and_then(|w| w.as_array()) { Some(w) => w.clone(), None => Vec::new() };
     let mut ev: Vec<Value> = Vec::new();
@@ -952,7 +993,7 @@ pub fn chunkrec_main(args: &[String]) -> i32 {
             ev.push(json!({"e": "fsync"}));
             let p = format!("{dir}/f{nf}.bin");
             std::fs::write(&p, dev.image(&[])).expect("write nested image");
-            cuts.push(Cut { at_event: ev.len() - 1, now, units: vec![], img: p });
+            cuts.push(Cut { at_event: ev.len() - 1, now, units: vec![], torn: Vec::new(), img: p });
             nf += 1;
         }
     }
